@@ -1,6 +1,7 @@
 package drv
 
 import (
+	"sync"
 	"bufio"
 	"bytes"
 	"encoding/binary"
@@ -37,6 +38,9 @@ type KdcScript struct {
 		UDP string `json:"udp"` // reply | silent | refuse
 	} `json:"kdcs"`
 	Target string `json:"target"` // handler | binary
+	// Overlap: this many further requests with the same content are sent to the same proxy instance while the first
+	// is still waiting for its KDC (every KDC delays its reply); each request is recorded and judged on its own
+	Overlap int `json:"overlap,omitempty"`
 }
 
 type kdcProxyMsg struct {
@@ -129,9 +133,34 @@ func (r *Runner) RunKdc(s *KdcScript, tw *TraceWriter, rng *rand.Rand) error {
 
 	// raw HTTP/1.1 exchange: the response is read even when the server stops
 	// reading a large request body early
+	type extraRes struct {
+		status, ms int
+		rb         []byte
+	}
+	var extras []extraRes
+	var ewg sync.WaitGroup
+	if s.Overlap > 0 {
+		for _, kd := range kdcs {
+			if kd != nil {
+				kd.Delay = 400 * time.Millisecond
+			}
+		}
+		extras = make([]extraRes, s.Overlap)
+		for k := 0; k < s.Overlap; k++ {
+			ewg.Add(1)
+			go func(k int) {
+				defer ewg.Done()
+				time.Sleep(time.Duration(60*(k+1)) * time.Millisecond)
+				t1 := time.Now()
+				st, b := rawExchange(strings.TrimPrefix(srv.URL, "http://"), s.Method, "/KdcProxy", body, s.Len == "none", 10*time.Second)
+				extras[k] = extraRes{st, int(time.Since(t1) / time.Millisecond), b}
+			}(k)
+		}
+	}
 	t0 := time.Now()
 	status, rb := rawExchange(strings.TrimPrefix(srv.URL, "http://"), s.Method, "/KdcProxy", body, s.Len == "none", 10*time.Second)
 	ms := int(time.Since(t0) / time.Millisecond)
+	ewg.Wait()
 	time.Sleep(5 * time.Millisecond)
 	if strings.Contains(logw.String(), "panic serving") {
 		panicked = true
@@ -204,6 +233,23 @@ func (r *Runner) RunKdc(s *KdcScript, tw *TraceWriter, rng *rand.Rand) error {
 	cls := s.Method + "." + s.Len + "." + s.Body + "." + s.Realm
 	tw.Line(M{"ev": "kdc", "script": s.ID, "cls": cls, "target": "handler", "method": s.Method, "len": s.Len, "body": s.Body, "realm": s.Realm, "kdcs": kd, "size": s.Size, "sizecls": s.SizeCls,
 		"status": status, "ms": ms, "replyOK": replyOK, "sentOK": sentOK, "anySent": anySent, "panicked": panicked, "partialOnly": partialOnly})
+	// the overlapping requests: same proxy, same KDCs, same expectations - each judged on its own
+	for _, x := range extras {
+		rok := false
+		if x.status == 200 {
+			var out kdcProxyMsg
+			rest, err := asn1.Unmarshal(x.rb, &out)
+			if err == nil && len(rest) == 0 {
+				for _, e := range expected {
+					if bytes.Equal(out.Message, e) {
+						rok = true
+					}
+				}
+			}
+		}
+		tw.Line(M{"ev": "kdc", "script": s.ID, "cls": cls, "target": "overlapping", "method": s.Method, "len": s.Len, "body": s.Body, "realm": s.Realm, "kdcs": kd, "size": s.Size, "sizecls": s.SizeCls,
+			"status": x.status, "ms": x.ms, "replyOK": rok, "sentOK": sentOK, "anySent": anySent, "panicked": panicked, "partialOnly": partialOnly})
+	}
 	return nil
 }
 
